@@ -6,7 +6,7 @@ CONSTANTS
   ShippedUpdate = FALSE
   Protocol = "nowait"
   AsyncFeeder = FALSE
-  Rootings <- RootingsAll
+  Rootings <- RootingsUnrooted
 INVARIANT NoMergeFailure
 INVARIANT SameSummary
 INVARIANT EveryFileRead
